@@ -161,7 +161,10 @@ def run_plugin(cfg: EnOptConfig, mname: str, n_con: int, sequence: list[Any], ph
         buffers: dict[Any, np.ndarray] = {}
         for req_i, pts in current["seq"]:
             marks.append(len(rec.calls))
-            out.append(np.array(issue(mname, cap.kwargs, reqs[req_i], pts, buffers), copy=True))
+            val = issue(mname, cap.kwargs, reqs[req_i], pts, buffers)
+            out.append(np.array(val, copy=True))
+            if val.ndim and val.flags.writeable:
+                val[...] = 2.0 * val + 1.0  # what the algorithm received is its own: it goes on computing with it in place
         marks.append(len(rec.calls))
 
     with capture(driver):
